@@ -76,7 +76,7 @@ def ar_event(name, mode, nobs, tid, i, tab, out_state, out_ts, lane=None):
     return ev
 
 
-def drive_env(name, tier, seed, part):
+def drive_env(name, tier, seed, part, sched_file=None):
     import jax
     import jax.numpy as jnp
 
@@ -208,9 +208,62 @@ def drive_env(name, tier, seed, part):
                     events.append(ev)
                 s_a, t_a, s_b, t_b = sa2, ta2, sb2, tb2
     # render: which state is drawn
+    if part == "c14" and sched_file and name in catalog.TERMINATE_ON_INVALID:
+        events.extend(forced_schedules(name, env, orc, seed, sched_file, rng))
     if part == "c14":
         events.extend(render_events(name, env, seed))
     return events
+
+
+def forced_schedules(name, env, orc, seed, sched_file, rng):
+    """HIST: run the TLC-generated termination schedules on both batched stacks: lane j plays an illegal action
+    exactly when the schedule says its episode ends on this step, a masked-in action otherwise."""
+    import jax
+    import jax.numpy as jnp
+
+    from jumanji.wrappers import AutoResetWrapper, VmapAutoResetWrapper, VmapWrapper
+
+    with open(sched_file) as f:
+        sc = json.load(f)
+    Bn = sc["nlanes"]
+    out = []
+    var = VmapAutoResetWrapper(env, next_obs_in_extras=True)
+    vaw = VmapWrapper(AutoResetWrapper(env, next_obs_in_extras=True))
+    ja, jb = jax.jit(var.step), jax.jit(vaw.step)
+    ra, rb = jax.jit(var.reset), jax.jit(vaw.reset)
+    for si, schedule in enumerate(sc["schedules"]):
+        keys = jax.random.split(jax.random.PRNGKey(seed * 31 + si), Bn)
+        s_a, t_a = ra(keys)
+        s_b, t_b = rb(keys)
+        for i, pat in enumerate(schedule):
+            acts = []
+            for lane in range(Bn):
+                obs = slice_tree(t_a.observation, lane)
+                a = catalog.illegal_action(env, obs, rng) if pat[lane] else None
+                if a is None:
+                    a = catalog.masked_action(env, obs, rng)
+                acts.append(a)
+            ja_ = jnp.asarray(np.stack(acts))
+            lasts = []
+            for lane in range(Bn):
+                _, nt = orc.step(jax.tree_util.tree_map(lambda x: x[lane], s_a), ja_[lane])
+                lasts.append(int(np.asarray(nt.step_type)) == 2)
+            sa2, ta2 = ja(s_a, ja_)
+            sb2, tb2 = jb(s_b, ja_)
+            out.append({"k": "stacks_step", "env": name, "B": Bn, "tid": 7000 + si, "i": i, "next_obs_in_extras": True,
+                        "pattern": lasts, "forced_pattern": pat, "schedule": si, "in_states_agree": eq(s_a, s_b),
+                        "agree": {"state": eq(sa2, sb2), "obs": eq(ta2.observation, tb2.observation),
+                                  "type": eq(ta2.step_type, tb2.step_type), "reward": eq(ta2.reward, tb2.reward),
+                                  "discount": eq(ta2.discount, tb2.discount), "extras": eq(ta2.extras, tb2.extras)}})
+            for lane in range(Bn):
+                tab = orc.table(jax.tree_util.tree_map(lambda x: x[lane], s_a), ja_[lane])
+                ev = ar_event(name, "vmapautoreset_sched", True, (7000 + si) * 100 + lane, i, tab, slice_tree(sa2, lane),
+                              slice_tree(ta2, lane), lane)
+                ev["k"] = "var_lane"
+                ev["B"] = Bn
+                out.append(ev)
+            s_a, t_a, s_b, t_b = sa2, ta2, sb2, tb2
+    return out
 
 
 def strip_key_np(state):
@@ -276,13 +329,15 @@ def render_events(name, env, seed):
 
 
 def main():
-    name, tier, seed, part, out = sys.argv[1:6]
+    name, tier, seed, part = sys.argv[1:5]
+    out = sys.argv[-1]
+    sched_file = sys.argv[5] if len(sys.argv) > 6 else None
     from harness.common import setup_env
 
     setup_env()
     t0 = time.time()
     try:
-        evs = drive_env(name, tier, int(seed), part)
+        evs = drive_env(name, tier, int(seed), part, sched_file)
         with open(out, "w") as f:
             f.write(dumps({"k": "hdr", "env": name, "cfg": {}, "tier": tier, "seed": int(seed)}) + "\n")
             for e in evs:
